@@ -90,5 +90,23 @@ pub fn verif_shared_new(x: (CallingProcess)) -> (r: CallingProcess) ensures r ==
 //@to <<<*caller == CallingProcess::Pending>>>
 //@| ensures r == (*caller == CallingProcess::Pending),  // @C20:waiter.sleeps.exactly.while.pending
 
+// the whole body of calling_process(): the query waits - with the predicate verified above - until an answer is there
+/// (R3) `determine_done.wait_while(caller_mutex.lock().unwrap(), PRED).unwrap()`. Condvar::wait_while: "Blocks the current thread
+/// until the provided condition becomes false" - it returns, holding the lock, only once the predicate says false. ASSUMED
+/// (as is that the lock is not poisoned; that a notified waiter wakes up is liveness and not decided).
+#[verifier::external_body]
+pub fn verif_wait_while<F: Fn(&CallingProcess) -> bool>(sh: &mut Shared, pred: F) -> (r: CallingProcess)
+    requires !old(sh).locked@, forall|c: &CallingProcess| #[trigger] pred.requires((c,)),
+    ensures final(sh).locked@, lockinv(final(sh)), r == final(sh).caller, pred.ensures((&r,), false),
+{ unimplemented!() }
+//@ region src/utils/process.rs calling_process
+//@sig pub fn calling_process_query(sh: &mut Shared) -> (r: CallingProcess)
+//@from <<<^>>>
+//@to <<<}) .unwrap()>>>
+//@rewrite <<<let (caller_mutex, determine_done) = &**CALLER;>>> => <<<>>>
+//@rewrite <<<determine_done .wait_while(caller_mutex.lock().unwrap(), |caller| { *caller == CallingProcess::Pending }) .unwrap()>>> => <<<verif_wait_while(sh, wait_predicate)>>>
+//@| requires !old(sh).locked@,
+//@| ensures r != CallingProcess::Pending,  // @C20:a.query.returns.only.a.finished.answer.it.waits.with.no.time.limit.while.the.cell.is.pending
+
 } // verus!
 fn main() {}
